@@ -4,4 +4,5 @@
 def f(x):
     a = x + 1
     b = a * 2
+    c: "@W" = b + 1
     return b
